@@ -7,6 +7,14 @@ from runner import PropBase
 from vlib import Rng
 
 KEYS = ["mz", "st", "ga", "gA", "gr", "iv", "ch", "sp", "ip", "spn", "ipn", "rn", "vn", "cr", "cv", "sz", "fm", "mg", "mga", "g0", "sp0", "ip0", "sa", "ia", "ev", "mf"]
+# the documented aliases and special registers, written out independently of the code's tables
+DOC_ALIASES = {v: {} for v in ("X86", "Amd64", "Ppc", "Ppc64", "Mips")}
+DOC_ALIASES["Arm"] = {"r11": "fp", "r13": "sp", "r14": "lr", "r15": "pc"}
+DOC_ALIASES["Arm64"] = {"x29": "fp", "x30": "lr"}
+DOC_ALIASES["OldArm64"] = {"x29": "fp", "x30": "lr"}
+DOC_ALIASES["Sparc"] = {"%s%d" % (k, i): "g_r%d" % (b + i) for k, b in (("g", 0), ("o", 8), ("l", 16), ("i", 24)) for i in range(8)}
+DOC_SP_IP = {"X86": ("esp", "eip"), "Amd64": ("rsp", "rip"), "Arm": ("sp", "pc"), "Arm64": ("sp", "pc"), "OldArm64": ("sp", "pc"),
+             "Ppc": ("r1", "srr0"), "Ppc64": ("r1", "srr0"), "Sparc": ("g_r14", "pc"), "Mips": ("sp", "pc")}
 UNKNOWN = ["-", "foo", "$eip", "RAX", "Rsp", "x31", "r32", "g_r32", "g8", "pc.", "cpsr", "EIP", "zz"]
 
 
@@ -552,6 +560,11 @@ class C18(PropBase):
                         "the checked get_register(All) returns %s" % (who, d["gA"]))
             if d["gA"] != value:
                 return "%s: after set_register(%s) get_register(.., All) returned %s" % (who, value, d["gA"])
+            # --- a documented alias denotes its documented register; a REGISTERS entry denotes itself
+            doc = DOC_ALIASES.get(variant, {})
+            if name in doc or name in RG:
+                if canon != doc.get(name, name):
+                    return "%s: memoize_register maps the name to %s; the documented register of this name is %s" % (who, canon, doc.get(name, name))
             # --- aliases denote one register; nothing else changes
             if d["ch"] != "%s:%s" % (canon, value):
                 return "%s: set_register(%s) changed REGISTERS entries [%s], expected exactly its canonical register %s" % (who, value, d["ch"], canon)
@@ -572,7 +585,9 @@ class C18(PropBase):
             if d["fm"] != "0x%0*x" % (w, int(value)):
                 return "%s: format_register gives %s for %s" % (who, d["fm"], value)
         # --- stack / instruction pointer names agree with the dedicated accessors
-        for tag, nm, cn in (("sp", d["spn"], d["spm"]), ("ip", d["ipn"], d["ipm"])):
+        for tag, nm, cn, want_nm in (("sp", d["spn"], d["spm"], DOC_SP_IP[variant][0]), ("ip", d["ipn"], d["ipm"], DOC_SP_IP[variant][1])):
+            if cn != want_nm:
+                return "%s: the %s register name is %r (canonical %s); the documented %s register is %s" % (variant, tag, nm, cn, tag, want_nm)
             if cn == "N":
                 return "%s: %s register name %r is not known to memoize_register" % (variant, tag, nm)
             hit = accepted and canon == cn
